@@ -21,6 +21,7 @@ pub mod runner;
 pub mod scen;
 pub mod sched;
 pub mod trace;
+pub mod v1exec;
 
 #[global_allocator]
 static GLOBAL: alloc::Counting = alloc::Counting;
